@@ -134,6 +134,9 @@ func (e *Env) Close() {
 		e.clos[i].Close()
 	}
 	e.clos = nil
+	// blobserver.GetHub keeps every storage that ever received a blob alive in a
+	// process-global map; forget them so that explored instances can be collected
+	blobserver.VerifResetHubs()
 	if e.dir != "" {
 		os.RemoveAll(e.dir)
 	}
